@@ -1,4 +1,5 @@
 import SMV.Src.Expected
+import SMV.Model.Clone
 /-!
 # The source-derived scripts of `statemachine.py` mean the store model (C10, C11, C13, C17)
 
@@ -78,5 +79,78 @@ theorem setState_order : setstateOrderOk Expected.setState = true := by decide
 both hand out what `getattr(self, name)` gives -/
 theorem allowed_shape :
     Expected.allowedEvents = { allowed := [.uniqueEventsOfCurrentState], events := [.declaredEventsOfClass] } := by decide
+
+/-! ## The registry a copy rebuilds, as the scripts say (C17, C12)
+
+The scripts of the constructor, `add_listener` and `__setstate__` interpreted over the name-level registry model
+(`SMV/Model/Clone.lean`): what they do to the registry (`Prov.Reg`: resolved items and the engine kind) and to the
+remembered passes. Statements that touch neither — fields, fresh containers, popping the pickled values, choosing and
+starting the engine (its *kind* was fixed by `async_or_sync` inside `_register_callbacks`: D12) — are skipped. -/
+open SMV.Prov in
+/-- registry and remembered passes after the constructor's script -/
+def runCtorReg (isCoro : CbId → Bool) (mm ctor : List Provider) (names required : List Name) :
+    List St.CStmt → Option (Except Exc Reg) → List (List Provider) → Option (Except Exc Reg) × List (List Provider)
+  | [], r, ps => (r, ps)
+  | .firstPass :: rest, r, _ => runCtorReg isCoro mm ctor names required rest r [ctor]
+  | .registerCallbacks :: rest, _, ps =>
+    runCtorReg isCoro mm ctor names required rest (some (registerAll isCoro (mm ++ ctor) names required)) ps
+  | _ :: rest, r, ps => runCtorReg isCoro mm ctor names required rest r ps
+
+open SMV.Prov in
+/-- `add_listener(*ls)` as its script says -/
+def runAddListenerReg (ls : List Provider) (names : List Name) :
+    List St.LStmt → Reg → List (List Provider) → Reg × List (List Provider)
+  | [], r, ps => (r, ps)
+  | .appendPass :: rest, r, ps => runAddListenerReg ls names rest r (ps ++ [ls])
+  | .resolveListenersSafe :: rest, r, ps => runAddListenerReg ls names rest (addListeners r ls names) ps
+  | .remember :: rest, r, ps => runAddListenerReg ls names rest r ps
+
+open SMV.Prov in
+/-- `__setstate__` as its script says, given the remembered passes -/
+def runSetStateReg (isCoro : CbId → Bool) (mm : List Provider) (passes : List (List Provider))
+    (names required : List Name) : List St.SStmt → Option (Except Exc Reg) → Option (Except Exc Reg)
+  | [], r => r
+  | .registerFirstPass :: rest, _ =>
+    runSetStateReg isCoro mm passes names required rest (some (registerAll isCoro (mm ++ passes.headD []) names required))
+  | .replayLatePasses :: rest, r =>
+    runSetStateReg isCoro mm passes names required rest
+      (r.map fun x => match x with
+        | .ok reg => .ok (passes.tail.foldl (fun reg ls => addListeners reg ls names) reg)
+        | .error e => .error e)
+  | _ :: rest, r => runSetStateReg isCoro mm passes names required rest r
+
+open SMV.Prov in
+/-- the constructor's script registers machine, model and the constructor's listeners in one pass and remembers that
+pass -/
+theorem runCtorReg_registerAll (isCoro : CbId → Bool) (mm ctor : List Provider) (names required : List Name) :
+    runCtorReg isCoro mm ctor names required Expected.smInit none [] =
+      (some (registerAll isCoro (mm ++ ctor) names required), [ctor]) := by
+  simp [Expected.smInit, runCtorReg]
+
+open SMV.Prov in
+/-- `add_listener`'s script is the model's `addListeners` and appends the pass -/
+theorem runAddListenerReg_addListeners (ls : List Provider) (names : List Name) (r : Reg) (ps : List (List Provider)) :
+    runAddListenerReg ls names Expected.addListener r ps = (addListeners r ls names, ps ++ [ls]) := by
+  simp [Expected.addListener, runAddListenerReg]
+
+open SMV.Prov in
+/-- **`__setstate__`'s script is the model's `setstateReplay`** -/
+theorem runSetStateReg_replay (isCoro : CbId → Bool) (mm : List Provider) (passes : List (List Provider))
+    (names required : List Name) :
+    runSetStateReg isCoro mm passes names required Expected.setState none =
+      some (setstateReplay isCoro mm passes names required) := by
+  simp only [Expected.setState, runSetStateReg, setstateReplay, Option.map_some]
+  cases registerAll isCoro (mm ++ passes.headD []) names required <;> rfl
+
+open SMV.Prov in
+/-- **C17 (registry), about the scripts**: a copy — `__setstate__`'s script run over the passes that the scripts of the
+constructor and of `add_listener` remembered — rebuilds exactly the registry (items in executor order, engine kind)
+that the original went through, for any constructor listeners and any sequence of later attachments -/
+theorem C17_registry_replay_scripts (isCoro : CbId → Bool) (mm ctor : List Provider) (lates : List (List Provider))
+    (names required : List Name) :
+    runSetStateReg isCoro mm (ctor :: lates) names required Expected.setState none =
+      some (original isCoro mm ctor lates names required) := by
+  rw [runSetStateReg_replay]
+  rfl
 
 end SMV.Src
